@@ -16,7 +16,7 @@ module M = struct
   type ev = lp_ev
   let name = "limitpool"
   let gen_params rng =
-    let m = (match Random.State.int rng 10 with 0 -> 0 | 1 -> 1 | 2 -> 2 | 3 -> 3 | n -> 1 + n mod 4) in
+    let m = (match Random.State.int rng 12 with 0 -> 0 | 1 -> 1 | 2 -> 2 | 3 -> 3 | 10 -> 2147483653 | 11 -> 2147483647 | n -> 1 + n mod 4) in
     [string_of_int m]
   let init params = lp_init (z_of_string (List.hd params))
   let nthreads = 5
